@@ -1,3 +1,4 @@
+pub mod ctx;
 pub mod grammar;
 pub mod jsx;
 pub mod sem;
